@@ -22,6 +22,7 @@ PatOK(p) == LET o == p.obs IN
             /\ (p.abs \/ p.rep = 2 \/ o.xdots > 0) \/ (o.xerr = "" /\ o.xsorted /\ (ToSet(o.xw) = ToSet(p.expw) \/ ToSet(o.xw) = ToSet(p.expw2)))
             \* the pattern as the value of v: $v is expanded like the word, "$v" is the text itself
             /\ (p.abs \/ p.rep = 2 \/ o.xdots > 0 \/ ~o.nobs) \/ (ToSet(o.xv) = ToSet(p.expw) /\ o.xq = <<p.wtext>>)
+            /\ o.escroot                            \* an absolute pattern whose first slash is escaped gives the same paths
             /\ o.sorted /\ o.nodup /\ o.lstat /\ o.slashok
 
 Chk == \A i \in 1..Len(Recs[k].pats) : PatOK(Recs[k].pats[i]) \/ PrintT(<<"MISMATCH", k, i>>)
